@@ -559,6 +559,7 @@ def grpc_family(W, base, n):
         v = json.loads(json.dumps(sc))
         v["id"] = sc["id"] + "/grpc"
         v["cfg"]["grpc"] = True
+        v["cfg"]["realJwks"] = len(out) % 2 == 0     # ... and every other one with the key provider object itself handed to the filter, as in main
         v["tags"] = list(v.get("tags", [])) + ["grpc"]
         out.append(v)
     return out
@@ -945,6 +946,7 @@ def c02(W, replay=None):
     if not replay:
         design_mc(W, "c02-design", ["TokensOnlyUnderIssued", "TokensFromOwnLogin"])
         scen = family(W, "C02")
+        scen += key_source_dimension(W, [x for x in scen if "/v0/" in x["id"]], 400 if W.tier == "thorough" else 80)
         # a forged refresh answer racing with a second check on the same session, at gate granularity
         ms = export(W, "c02-forged-refresh-race", Prepared='"expired"', Target=1, MaxApps=2, MaxInFlight=2, MaxFaults=1,
                     Checks="{1,2,3,4,5}", MaxSid=4, MaxTok=5, TokLife=1, Kinds='{"app"}')
@@ -997,6 +999,25 @@ def c04(W, replay=None):
         scen = family(W, "C04") + c04_fault_replay() + attacker_family(W, 600 if W.tier == "thorough" else 150) + parallel_family(W, 400 if W.tier == "thorough" else 40)
         scen += family(W, "C18", "quick") + same_client_family(W) + discovery_family(W) + dup_chain_family(W) + shared_callback_family(W) + decoy_family(W) + secret_rotation_family(W) + env_std(W) + debug_family(W)
     return sys_pipeline("C04", W, scen, None, ASSUME_SYS + ["the simulated token endpoint logs exactly what it was sent and is strict (RFC 6749/7636)"], replay=replay)
+
+
+def key_source_dimension(W, fam, n):
+    """Scenarios once more with the key set FETCHED from the provider's key endpoint instead of configured statically, and
+    the filter handed the key provider object itself, as cmd/main.go does (no wrapper that narrows its type)."""
+    out = []
+    for k, sc in enumerate(sample(W, fam, n)):
+        v = json.loads(json.dumps(sc))
+        v["id"] = sc["id"] + "/fetchedKeys"
+        for f in v["cfg"]["filters"]:
+            if k % 3 == 2:
+                f["discovery"] = True
+            else:
+                f["jwks"] = "fetch"
+        v["cfg"]["realJwks"] = True
+        for st in v["steps"]:
+            st.pop("expect", None)
+        out.append(v)
+    return out
 
 
 def c04_fault_replay():
